@@ -56,6 +56,22 @@ def check(ctx, rep):
         problems = []
         tries = enclosing_tries(f.node, s.call)
         missing = [e for e in REQUIRED if not any(catches(h, e) for tr in tries for h in tr.handlers)]
+        root, inline_fn = f, None
+        if missing and f.cls is not None:
+            # the load may sit in a small reader method whose callers (in the same class hierarchy) hold the try
+            callers = []
+            for c in prog.mro(H):
+                for m2 in c.methods.values():
+                    if prog.resolve_method(H, m2.name) is not m2:
+                        continue
+                    for call2, t2 in eff.calls_of(m2, H):
+                        if t2.kind == "repo" and f in t2.funcs and t2.bound_cls is not None:
+                            callers.append((m2, call2))
+            covered = callers and all(
+                not [e for e in missing if not any(catches(h, e) for tr in enclosing_tries(m2.node, call2) for h in tr.handlers)]
+                for m2, call2 in callers)
+            if covered and len({m2 for m2, _ in callers}) == 1:
+                root, inline_fn, missing = callers[0][0], f, []
         if missing:
             problems.append(f"a truncated or zero-filled cache file raises {missing[0]} (also {', '.join(missing[1:4])}) which nothing here catches: "
                             "the request fails instead of regenerating the listing")
@@ -64,10 +80,10 @@ def check(ctx, rep):
             def rp(call, target, _site=s.call):
                 return ["EOFError"] if call is _site else []
             concrete = H if f.cls is not None and prog.is_subclass(H, f.cls) else f.cls
-            w = Walker(prog, ctx.resolver, raise_points=rp)
+            w = Walker(prog, ctx.resolver, raise_points=rp, inline=(lambda fn, t, d: fn is inline_fn) if inline_fn is not None else None)
             normal_truthy = False
             fail_paths = []
-            for p in w.run(f, concrete):
+            for p in w.run(root, concrete):
                 raised = any(e.kind == "raise" and e.extra == "implicit" and e.node is s.call for e in p.events)
                 if raised:
                     fail_paths.append(p)
